@@ -1,10 +1,17 @@
 package main
 
 import (
+	"bytes"
 	"fmt"
 	"runtime"
 	"sync"
 	"time"
+
+	control "github.com/longportapp/openapi-protobufs/gen/go/control"
+	protocol "github.com/longportapp/openapi-protocol/go"
+	"github.com/longportapp/openapi-protocol/go/client"
+	"github.com/longportapp/openapi-protocol/go/verifhook"
+	pb "google.golang.org/protobuf/proto"
 )
 
 func init() {
@@ -134,5 +141,392 @@ func init() {
 		runtime.ReadMemStats(&m1)
 		grown := m1.TotalAlloc - m0.TotalAlloc
 		t.Check("alloc_bounded_by_input", grown < 1<<20, "the peer sent %d bytes (a v%d header announcing a body of 16777215 bytes, one further byte, then nothing): %d bytes were allocated in the process while the client digested them (want well under 1 MiB: allocation follows the bytes supplied, not the length field)", len(hostile), p.version, grown)
+	}})
+}
+
+func init() {
+	// C15 under write load (TCP): the peer answers two heartbeats, then hangs — it neither answers nor reads any more, the socket stays
+	// open — while the application keeps sending large requests: socket buffers and the write queue fill up. Detection must not depend on
+	// the heartbeat getting a place in that queue: the dead peer is recycled within interval + timeout (+ slack) all the same
+	register(&scenario{Name: "c15/hung-peer-under-write-load", Props: []string{"C15", "C06", "C14"}, Quick: true, Transports: []string{"tcp"}, Run: func(t *T) {
+		p := newPeer(t, t.Transport, t.Version)
+		defer p.Shutdown()
+		var mu sync.Mutex
+		pings := 0
+		var hungAt time.Time
+		hung := make(chan struct{})
+		p.onFrame = func(pc *peerConn, f frameIn) {
+			if pc.N != 1 {
+				stdReply(pc, f)
+				if f.Typ == 1 && f.Cmd >= 100 {
+					pc.Send(respFrame(f, 0, nil))
+				}
+				return
+			}
+			if f.Typ == 1 && f.Cmd == 1 {
+				mu.Lock()
+				pings++
+				n := pings
+				mu.Unlock()
+				if n <= 2 {
+					pc.Send(respFrame(f, 0, f.Body))
+				}
+				if n == 3 { // the third heartbeat has arrived and stays unanswered: from now on the peer does not even read
+					mu.Lock()
+					hungAt = time.Now()
+					mu.Unlock()
+					pc.Stall(true)
+					close(hung)
+				}
+			}
+		}
+		cfg := defaultCfg()
+		cfg.KeepaliveU, cfg.KeepaliveTimeoutU = 3, 6
+		cfg.MinGzip = 1 << 30
+		cl, err := t.NewClient(p, cfg)
+		if err != nil {
+			t.Check("setup", false, "dial: %v", err)
+			return
+		}
+		body := make([]byte, 1<<20)
+		for k := range body {
+			body[k] = byte('a' + k%26)
+		}
+		stop := make(chan struct{})
+		var wg sync.WaitGroup
+		for w := 0; w < 12; w++ {
+			wg.Add(1)
+			go func() {
+				defer wg.Done()
+				select { // the write load starts once a heartbeat is outstanding at a peer that has stopped reading
+				case <-hung:
+				case <-stop:
+					return
+				}
+				for {
+					select {
+					case <-stop:
+						return
+					default:
+					}
+					_, _ = cl.Do(contextBG(), &clientRequest{Cmd: 100, Body: &control.AuthRequest{Token: string(body)}}, reqTimeout(t.U(2)))
+					time.Sleep(t.U(1) / 10)
+				}
+			}()
+		}
+		select {
+		case <-hung:
+		case <-time.After(t.U(60)):
+			t.Check("setup", false, "the peer never saw three heartbeats")
+			close(stop)
+			cl.Close(nil)
+			return
+		}
+		deadline := time.Now().Add(t.U(3 + 6 + 3 + 40))
+		for time.Now().Before(deadline) && p.Dials() < 2 {
+			time.Sleep(t.U(1) / 4)
+		}
+		second := time.Now()
+		// Close with the senders still at it (and, if the dead peer was not detected, with everything still wedged): it returns promptly
+		closed := make(chan struct{})
+		go func() { cl.Close(nil); close(closed) }()
+		select {
+		case <-closed:
+		case <-time.After(t.U(40)):
+			t.Check("close_prompt", false, "Close did not return within 40 units (hung peer, 12 senders of 1 MiB requests, %d connection(s) so far)", p.Dials())
+		}
+		close(stop)
+		done := make(chan struct{})
+		go func() { wg.Wait(); close(done) }()
+		select {
+		case <-done:
+		case <-time.After(t.U(30)):
+			t.Check("do_terminates", false, "request calls issued against the hung peer (request timeout 2 units) have not returned 30 units after the senders were told to stop")
+		}
+		mu.Lock()
+		h := hungAt
+		mu.Unlock()
+		lat := second.Sub(h)
+		t.Check("detects_dead", p.Dials() >= 2 && lat <= t.U(3+6+12), "a peer that answered two heartbeats, left the third unanswered and stopped reading (socket open) while 12 goroutines then kept sending 1 MiB requests: %d connection(s) after %.1f units (interval 3, timeout 6: recycle expected within interval + timeout + slack)", p.Dials(), float64(lat)/float64(t.U(1)))
+	}})
+
+	// C19 across a recovery with heartbeats on BOTH connections: the heartbeat ids and the request ids of one connection come from that
+	// connection's own counter — on the second connection they start at 1 again and never repeat, whatever was issued on the first one
+	register(&scenario{Name: "c19/heartbeats-then-recovery", Props: []string{"C19", "C15"}, Quick: true, Run: func(t *T) {
+		p := newPeer(t, t.Transport, t.Version)
+		defer p.Shutdown()
+		p.onFrame = func(pc *peerConn, f frameIn) {
+			if f.WsKind == "ping" {
+				pc.WsControl(10, f.Body)
+				return
+			}
+			if f.WsKind != "" && f.WsKind != "binary" {
+				return
+			}
+			if f.Typ == 1 {
+				pc.Send(respFrame(f, 0, f.Body))
+			}
+		}
+		cfg := defaultCfg()
+		cfg.KeepaliveU, cfg.KeepaliveTimeoutU = 2, 20
+		cl, err := t.NewClient(p, cfg)
+		if err != nil {
+			t.Check("setup", false, "dial: %v", err)
+			return
+		}
+		defer cl.Close(nil)
+		idsOn := func(pc *peerConn) []uint32 {
+			var ids []uint32
+			for _, f := range pc.Frames() {
+				if f.Typ == 1 && (f.WsKind == "" || f.WsKind == "binary") {
+					ids = append(ids, f.Rid)
+				} else if f.WsKind == "ping" {
+					if id, ok := heartbeatIDOf(f.Body); ok {
+						ids = append(ids, id)
+					}
+				}
+			}
+			return ids
+		}
+		// first connection: a few calls and at least three heartbeats
+		for i := 0; i < 4; i++ {
+			doTagged(t, cl, 100, int32(i), 6)
+		}
+		for k := 0; k < 80; k++ {
+			n := 0
+			for _, f := range p.FirstConn().Frames() {
+				if f.WsKind == "ping" || (f.Typ == 1 && f.Cmd == 1) {
+					n++
+				}
+			}
+			if n >= 3 {
+				break
+			}
+			time.Sleep(t.U(1) / 2)
+		}
+		p.FirstConn().Drop()
+		for k := 0; k < 200 && p.Dials() < 2; k++ {
+			time.Sleep(t.U(1) / 4)
+		}
+		t.Sleep(1)
+		// second connection: calls interleaved with heartbeats, more calls than ids were used on the first connection
+		for i := 0; i < 14; i++ {
+			doTagged(t, cl, 100, int32(100+i), 6)
+			if i%4 == 3 {
+				t.Sleep(2)
+			}
+		}
+		t.Sleep(3)
+		conns := p.Conns()
+		if len(conns) < 2 {
+			t.Check("setup", false, "the client did not recover")
+			return
+		}
+		for ci, pc := range conns[:2] {
+			ids := idsOn(pc)
+			ok := len(ids) > 0
+			for i, id := range ids {
+				if int(id) != i+1 {
+					ok = false
+				}
+			}
+			t.Check("ids_from_one", ok, "connection %d: the ids of requests and heartbeats as the peer saw them, in order, are %v (want 1, 2, 3, … — one counter per connection, starting at 1)", ci+1, ids)
+		}
+	}})
+}
+
+// heartbeatIDOf: the heartbeat id carried in a (protobuf) heartbeat body
+func heartbeatIDOf(body []byte) (uint32, bool) {
+	var hb control.Heartbeat
+	if pb.Unmarshal(body, &hb) != nil || hb.HeartbeatId == nil {
+		return 0, false
+	}
+	return uint32(hb.GetHeartbeatId()), true
+}
+
+func init() {
+	// C16/C14 (TCP): the peer closes the client's FIRST connection at once, and the conn's reader notices and closes the conn while the
+	// client is still inside Dial, before it has registered its close callback (forced: Dial is parked at the handshake write until the
+	// reader has exited). Dial returns all the same, the loss is recovered, Close returns, and nothing is left running
+	register(&scenario{Name: "c16/first-conn-closed-before-registration", Props: []string{"C16", "C14", "C06"}, Quick: true, Transports: []string{"tcp"}, Run: func(t *T) {
+		p := newPeer(t, t.Transport, t.Version)
+		defer p.Shutdown()
+		p.onAccept = func(pc *peerConn) {
+			if pc.N == 1 {
+				pc.Drop()
+			}
+		}
+		p.onFrame = func(pc *peerConn, f frameIn) {
+			if stdReply(pc, f) {
+				return
+			}
+			if f.Typ == 1 && f.Cmd >= 100 {
+				pc.Send(respFrame(f, 0, f.Body))
+			}
+		}
+		verifhook.Hold("conn.write:before-enqueue")
+		seq := verifhook.Seq()
+		type dialed struct {
+			cl  client.Client
+			err error
+		}
+		dialDone := make(chan dialed, 1)
+		go func() {
+			cl, err := t.NewClient(p, defaultCfg())
+			dialDone <- dialed{cl, err}
+		}()
+		parked := verifhook.WaitParked("conn.write:before-enqueue", 1, t.U(40))
+		_, exited := verifhook.WaitEvent("conn.reader:exit", seq, t.U(40))
+		verifhook.Release("conn.write:before-enqueue")
+		if !parked || !exited {
+			t.Check("setup", true, "window not forced (parked=%v reader exited=%v): the scenario runs unforced", parked, exited)
+		}
+		var d dialed
+		select {
+		case d = <-dialDone:
+		case <-time.After(t.U(60)):
+			n, where := libGoroutines()
+			t.Check("client_threads_exit", false, "Dial has not returned 60 units after the handshake write was released (the peer had closed the first connection before the client registered its close callback); %d library goroutine(s): %s", n, where)
+			return
+		}
+		if d.err == nil && d.cl != nil {
+			for k := 0; k < 120 && p.Dials() < 2; k++ {
+				time.Sleep(t.U(1) / 2)
+			}
+			t.Check("one_recovery_per_loss", p.Dials() >= 2, "the first connection was closed by the peer during Dial: no second connection within 60 units")
+			closed := make(chan struct{})
+			go func() { d.cl.Close(nil); close(closed) }()
+			select {
+			case <-closed:
+			case <-time.After(t.U(40)):
+				t.Check("close_prompt", false, "Close did not return within 40 units")
+				return
+			}
+		}
+		t.Sleep(3)
+		n, where := libGoroutines()
+		t.Check("client_threads_exit", n == 0, "%d library goroutine(s) alive after Dial on a connection the peer closed at once, recovery and Close: %s", n, where)
+		t.Check("sockets_released", p.Open() == 0, "%d socket(s) still open at the peer", p.Open())
+	}})
+}
+
+func init() {
+	// C17/C13 (both protocol versions — "/v2" in the name puts version 2 into the quick tier): pushes sent in separate segments to a
+	// subscriber that is still reading the previous body when the next segment arrives, while callers get answers on the same connection.
+	// A delivered body is the application's: nothing of the connection may write to it any more (the race detector sees a reader that
+	// reuses the memory; the content check sees the overwritten bytes)
+	register(&scenario{Name: "c17/v2-slow-subscriber-bodies", Props: []string{"C17", "C13", "C07"}, Quick: true, Run: func(t *T) {
+		p := newPeer(t, t.Transport, t.Version)
+		defer p.Shutdown()
+		p.onFrame = func(pc *peerConn, f frameIn) {
+			if stdReply(pc, f) {
+				return
+			}
+			if f.Typ == 1 && f.Cmd >= 100 {
+				pc.Send(respFrame(f, 0, f.Body))
+			}
+		}
+		var mu sync.Mutex
+		var got []string
+		cfg := defaultCfg()
+		cfg.ReadQueue = 64
+		cfg.MinGzip = 1 << 30
+		cfg.Handlers = map[uint32][]func(*protocol.Packet){50: {func(pk *protocol.Packet) {
+			// read the body slowly: first half, wait, second half
+			h1 := fnv64(pk.Body[:len(pk.Body)/2])
+			time.Sleep(t.U(1))
+			h2 := fnv64(pk.Body[len(pk.Body)/2:])
+			mu.Lock()
+			got = append(got, fmt.Sprintf("%d:%x:%x", len(pk.Body), h1, h2))
+			mu.Unlock()
+		}}}
+		cl, err := t.NewClient(p, cfg)
+		if err != nil {
+			t.Check("setup", false, "dial: %v", err)
+			return
+		}
+		defer cl.Close(nil)
+		pc := p.FirstConn()
+		var want []string
+		for i := 0; i < 6; i++ {
+			body := bytes.Repeat([]byte{byte('A' + i)}, 900+i*37)
+			want = append(want, fmt.Sprintf("%d:%x:%x", len(body), fnv64(body[:len(body)/2]), fnv64(body[len(body)/2:])))
+			pc.Send(pushFrame(50, body))
+			if i%2 == 1 {
+				doTagged(t, cl, 100, int32(i), 10)
+			}
+			time.Sleep(t.U(1) / 3)
+		}
+		for k := 0; k < 60; k++ {
+			mu.Lock()
+			n := len(got)
+			mu.Unlock()
+			if n >= len(want) {
+				break
+			}
+			time.Sleep(t.U(1) / 2)
+		}
+		mu.Lock()
+		defer mu.Unlock()
+		t.Check("dispatch_spec", fmt.Sprint(got) == fmt.Sprint(want), "six pushes sent a third of a unit apart to a subscriber that takes a unit per body: the subscriber read (length:hash of first half:hash of second half) %v, the peer sent %v", got, want)
+	}})
+}
+
+func init() {
+	// C13 while a recovery is RUNNING: a burst of pushes is queued behind a slow handler, the connection is lost, and the re-dials are
+	// refused for a while — the dispatcher works through the queue while the client is recovering. Frames received before the loss are
+	// delivered all the same, exactly once, in order (the only permitted loss is the logged overflow)
+	register(&scenario{Name: "c13/burst-then-drop-slow-recovery", Props: []string{"C13", "C08"}, Quick: true, Run: func(t *T) {
+		p := newPeer(t, t.Transport, t.Version)
+		defer p.Shutdown()
+		p.onFrame = func(pc *peerConn, f frameIn) {
+			if stdReply(pc, f) {
+				return
+			}
+			if f.Typ == 1 && f.Cmd == 100 && pc.N == 1 {
+				for i := 0; i < 30; i++ {
+					pc.Send(pushFrame(50, []byte(fmt.Sprintf("q%02d", i))))
+				}
+				time.Sleep(t.U(2))
+				p.Refuse(true)
+				pc.Drop()
+				go func() { time.Sleep(t.U(14)); p.Refuse(false) }()
+			}
+		}
+		var mu sync.Mutex
+		var got []string
+		n := 0
+		cfg := defaultCfg()
+		cfg.ReadQueue = 128
+		cfg.Handlers = map[uint32][]func(*protocol.Packet){50: {func(pk *protocol.Packet) {
+			mu.Lock()
+			n++
+			k := n
+			mu.Unlock()
+			if k <= 5 {
+				time.Sleep(t.U(1)) // five slow deliveries: the loss and the first failed re-dials happen meanwhile
+			}
+			mu.Lock()
+			got = append(got, string(pk.Body))
+			mu.Unlock()
+		}}}
+		cl, err := t.NewClient(p, cfg)
+		if err != nil {
+			t.Check("setup", false, "dial: %v", err)
+			return
+		}
+		defer cl.Close(nil)
+		t.DoAsync(cl, "burst", 100, 3)
+		t.Sleep(12)
+		t.Join()
+		mu.Lock()
+		defer mu.Unlock()
+		want := []string{}
+		for i := 0; i < 30; i++ {
+			want = append(want, fmt.Sprintf("q%02d", i))
+		}
+		if t.Warns("drop") == 0 {
+			t.Check("dispatch_spec", fmt.Sprint(got) == fmt.Sprint(want), "30 pushes were received before the connection was lost (no overflow logged) and the re-dials were refused for 14 units: %d were delivered while the client was recovering: %v", len(got), got)
+		}
 	}})
 }
